@@ -53,7 +53,23 @@ class AllEqual:
         return 7
 
 
-SHAPES = {"Plain": Plain, "Sized": Sized, "Booled": Booled, "AllEqual": AllEqual}
+class EqualsAnything:
+    """a wildcard object: compares equal to whatever it is compared with, None and sentinels included"""
+
+    def __init__(self):
+        CREATED.append(self)
+
+    def __eq__(self, other):
+        return True
+
+    def __ne__(self, other):
+        return False
+
+    def __hash__(self):
+        return 11
+
+
+SHAPES = {"Plain": Plain, "Sized": Sized, "Booled": Booled, "AllEqual": AllEqual, "EqualsAnything": EqualsAnything}
 MODES = ["single", "session", "percall", "bogus"]
 CREATORS = ["none", "makes-instance", "returns-wrong-type", "raises"]
 
@@ -253,7 +269,7 @@ SPECS = [
          native_patch=env.native_env, reset=_reset,
          desc="five (seven) consecutive _getInstance calls on two connections with a garbage collection between them and no reference to the instance kept by the caller: single and session instances survive and keep their state, one creation per daemon / per connection"),
     Spec("get_instance", h_get_instance,
-         {"quick": {"SHAPES": ["Plain", "Sized", "Booled", "AllEqual"]}, "thorough": {"SHAPES": ["Plain", "Sized", "Booled", "AllEqual"]}},
+         {"quick": {"SHAPES": ["Plain", "Sized", "Booled", "AllEqual", "EqualsAnything"]}, "thorough": {"SHAPES": ["Plain", "Sized", "Booled", "AllEqual", "EqualsAnything"]}},
          covers=["mode:single", "mode:session", "mode:percall", "mode:bogus", "check:single-reuses-the-instance",
                  "check:session-instance-never-shared", "check:close-drops-session-instances"],
          native_patch=env.native_env, reset=_reset,
